@@ -135,6 +135,8 @@ def all_concrete(vals):
     for v in vals:
         if isinstance(v, (SV, HObj, NTVal, Closure, LambdaVal, Bound, SymIter, GenResult, ExcVal, SuperProxy)):
             return False
+        if type(v).__module__.startswith("pyvc"):
+            return False        # interpreter-level objects (iterators, parameters, ...) are never concrete python values
         if isinstance(v, (list, tuple, set, frozenset)):
             if not all_concrete(v):
                 return False
@@ -275,12 +277,14 @@ def identity(ex, a, b):
         inner_b = b.ty.inner.kind if kb == "opt" else kb
         if inner_a == "str" and inner_b == "str":
             # Object identity of strings is not determined by their values
-            # (interning): any answer consistent with `a is b -> a == b`.
+            # (interning): any answer consistent with `a is b -> a == b`; None is a singleton.
             same = fresh_term(z3.BoolSort(), "is")
             e = ex.eq(a, b)
             ex.assume(z3.Implies(same, ex._z(e)), "str identity: a is b -> a == b (nothing more)")
             ex.notes.append("string identity test modelled as nondeterministic")
-            return same
+            an = a.ty.is_none(a.t) if ka == "opt" else z3.BoolVal(False)
+            bn = b.ty.is_none(b.t) if kb == "opt" else z3.BoolVal(False)
+            return z3.If(z3.And(an, bn), z3.BoolVal(True), z3.If(z3.Or(an, bn), z3.BoolVal(False), same))
         if inner_a in ("enum", "ienum", "bool") and inner_a == inner_b:
             return ex.eq(a, b)
     if is_sym(a) or is_sym(b):
@@ -687,6 +691,7 @@ def repr_(ex, v):
 
 
 FORMAT_HOOKS = []
+JOIN_HOOKS = []
 
 
 def format_(ex, v, spec):
@@ -749,6 +754,10 @@ def str_method(ex, s, name, args, kwargs):
         return r
     if name == "join" and len(args) == 1:
         xs = args[0]
+        for h in JOIN_HOOKS:
+            r = h(ex, s, xs)
+            if r is not NotImplemented:
+                return r
         if isinstance(xs, (list, tuple)) or isinstance(xs, GenResult):
             xs = as_list(ex, xs)
             if all(_strsv(x) for x in xs):
